@@ -196,13 +196,11 @@ pub fn belt_injective() {
     core.write_keystream_block(blk_mut::<U16>(&mut a));
     core.set_block_pos(j);
     core.write_keystream_block(blk_mut::<U16>(&mut b));
-    // calls: 0 = E(IV), 1 = block i, 2 = block j
-    assert!(calls() == 3);
-    let (x1, x2) = (call_x(1), call_x(2));
+    // E is a permutation: the two keystream blocks are equal iff the two counter blocks are
     let mut same = true;
     let mut k = 0;
     while k < 16 {
-        same &= x1[k] == x2[k];
+        same &= a[k] == b[k];
         k += 1;
     }
     assert!(!same, "two positions share one counter block");
